@@ -435,6 +435,7 @@ class ValueMon(Monitor):
         self.supplied = {}    # source -> summed value at supply
         self.received = {}    # sink -> summed value at receipt
         self.costs = 0        # maintainer costs of started orders
+        self.booked = {}      # asset -> value booked directly on it by operations
         self.pre = {}
 
     def _assets(self, w):
@@ -470,6 +471,8 @@ class ValueMon(Monitor):
         for t in w.hub.tlog:
             if t[0] == 'start_work':
                 self.costs += w.dev[t[1]].wo_table.get(t[2], (0, 0, 0))[2]
+            elif t[0] == 'addvalue':
+                self.booked[t[1]] = self.booked.get(t[1], 0) + t[2]
         self.check(w, False)
 
     def check(self, w, first):
@@ -508,7 +511,7 @@ class ValueMon(Monitor):
         for k in w.dev.values():
             if isinstance(k, Sink):
                 rec = self.received.get(k.name, 0)
-                if k.value != rec or k.value_of_received_parts != rec:
+                if k.value != rec + self.booked.get(k.name, 0) or k.value_of_received_parts != rec:
                     raise Violation('sink_value', f'{k.name}: value {k.value}, value_of_received_parts '
                                                   f'{k.value_of_received_parts}, value at receipt {rec}')
                 if rec:
@@ -523,6 +526,18 @@ class ValueMon(Monitor):
         tot = sum(a.value for a in w.system._assets if isinstance(a, Asset))
         if w.system.get_net_value_of_assets() != tot:
             raise Violation('net_value', f'{w.system.get_net_value_of_assets()} vs {tot}')
+        # ... of THIS system, whichever system happens to be the active one
+        from simprocesd.model import System as _Sys
+        act = _Sys._instance
+        other = _Sys.__new__(_Sys)
+        other._assets = []
+        _Sys._instance = other
+        try:
+            got = w.system.get_net_value_of_assets()
+        finally:
+            _Sys._instance = act
+        if got != tot:
+            raise Violation('net_value', f'net value of the system is {got} while another system is active, {tot} otherwise')
 
 
 # ============================================================================ C06
@@ -681,6 +696,7 @@ class ShutdownMon(Monitor):
         self.use = {}      # processor -> integral of "processing a part"
         self.orders = {}   # processor -> [tag, start time, externally restored?]
         self.pre = {}
+        self.nfail = {}    # processor -> failure-log records seen
 
     def procs(self, w):
         return [d for d in w.dev.values() if isinstance(d, PartProcessor)]
@@ -815,6 +831,13 @@ class ShutdownMon(Monitor):
             if n != 1:
                 raise Violation('lost_part', f'{o.name}: failure reported {n} times to shutdown callbacks '
                                              f'(part in process was {self.pre[o.name][1]})')
+            recs = w.env.simulation_data.get('device_failure', {}).get(o.name, [])
+            k0 = self.nfail.get(o.name, 0)
+            new = [tuple(r) for r in recs[k0:]]
+            if new != [(now, self.pre[o.name][1])]:
+                raise Violation('failure_log', f'{o.name}: failure at t={now} lost part {self.pre[o.name][1]}; failure log '
+                                               f'gained {new}')
+            self.nfail[o.name] = len(recs)
         self.check_acct(w)
 
 
@@ -935,6 +958,11 @@ class RouteMon(Monitor):
         for t in tl:
             if t[0] == 'upstream':
                 self.up[t[1]] = list(t[2])
+        for t in tl:
+            if t[0] == 'restored' and t[1] in self.idle_since:
+                d = w.dev[t[1]]
+                if d._part is None and d._output is None:
+                    self.idle_since[t[1]] = now      # a repaired idle machine waits for a part from the repair on
         gives = w.hub.gives
         actor = dev_by_id(w, w.hub.actor)
         # new parts appear in their source with the source as first history entry
@@ -968,6 +996,8 @@ class RouteMon(Monitor):
             ids = [pid] + [x for x in lv if x != pid]
             prev = giver
             prev_dev = actor
+            prev_dev_of_last = None
+            exit_entry = None
             for g in chain:
                 rname = g[3]
                 rdev = None
@@ -988,10 +1018,10 @@ class RouteMon(Monitor):
                     if self.path_group.get(entry) != gname:
                         raise Violation('group_exit', f'part {pid} leaves group {gname} but its innermost entered '
                                                       f'path is {entry} of group {self.path_group.get(entry)}')
-                    for i in ids:
-                        if i in self.stack:
-                            self.stack[i].pop()
+                    if pid in self.stack and self.stack[pid]:
+                        self.stack[pid].pop()
                     w.facts.append('group_exit')
+                    exit_entry = entry
                     if isinstance(rdev, GroupOutput):
                         # nested groups: the inner path is the last device of the enclosing group
                         if entry not in self.g_out[rdev._group.name]:
@@ -1019,7 +1049,7 @@ class RouteMon(Monitor):
                     from .line import DECIDERS
                     dec = self.spec_of(w, rname).get('decider', 'all')
                     q = g[9]
-                    ok = {'q_ge': q >= 0.5, 'q_lt': q < 0.5, 'all': True}[dec]
+                    ok = {'q_ge': q >= 0.5, 'q_lt': q < 0.5, 'all': True, 'q_ge_none': q >= 0.5, 'q_lt_none': q < 0.5}[dec]
                     if not ok:
                         raise Violation('gate', f'part {pid} (quality {q}) passed gate {rname} ({dec})')
                     w.facts.append('gate_pass')
@@ -1027,16 +1057,20 @@ class RouteMon(Monitor):
                     for i in ids:
                         self.route.setdefault(i, []).append(rname)
                 if self.kinds.get(rname) == 'path':
-                    for i in ids:
-                        self.stack.setdefault(i, []).append(rname)
+                    # the entered-path stack travels with the item handed over (a batch carries it for its parts)
+                    self.stack.setdefault(pid, []).append(rname)
+                prev_dev_of_last = prev_dev
                 prev, prev_dev = rname, rdev
             final = chain[-1][3]
             fdev = w.dev.get(final)
             if fdev is None or not isinstance(fdev, PartHandler):
                 raise Violation('edge', f'part {pid} accepted by {final}, which cannot hold parts')
             # idle-longest rule among parallel single-slot candidates of the giver
-            if self.idle_rule and _is_cycle_dev(fdev) and len(chain) == 1:
-                cands = [c for c in self.downstream_of(giver) if c in self.pre_idle]
+            eff = giver
+            if len(chain) == 2 and isinstance(prev_dev_of_last, GroupOutput) and exit_entry is not None:
+                eff = exit_entry         # a part leaving a group is offered to the devices behind the path it entered by
+            if self.idle_rule and _is_cycle_dev(fdev) and (len(chain) == 1 or eff is not giver):
+                cands = [c for c in self.downstream_of(eff) if c in self.pre_idle]
                 if final in self.pre_idle and len(cands) > 1:
                     best = min(self.pre_idle[c] for c in cands)
                     if self.pre_idle[final] != best:
@@ -1063,9 +1097,11 @@ class RouteMon(Monitor):
 
     def check_histories(self, w):
         live = []
+        top = set()
         for d in w.flow_devices():
             for it in held_items(d):
                 live.append(it)
+                top.add(id(it))
                 if isinstance(it, Batch):
                     live.extend(leaf_parts(it))
             if isinstance(d, Sink):
@@ -1084,6 +1120,8 @@ class RouteMon(Monitor):
             got = [x.name for x in p.routing_history]
             if got != want:
                 raise Violation('routing_history', f'part {p.id}: routing history {got}, observed route {want}')
+            if id(p) not in top:
+                continue          # members of a batch: the batch carries the entered-path stack
             gp = [x.name for x in p._group_pathing]
             if gp != self.stack.get(p.id, []):
                 raise Violation('group_stack', f'part {p.id}: entered-path stack {gp}, observed {self.stack.get(p.id, [])}')
